@@ -36,7 +36,7 @@ PROFILE = gen.profile(
     flow_kinds=(("linear", 2), ("sinus", 3), ("const", 1)), cfl=(0.1, 0.7), p_time_dependent=0.8, p_temp=0.7,
     rows=(4, 12), mult=((1, 5), (2, 1)), p_late_rows=0.8, p_rows_outside=0.1, p_continuous=0.2, p_ibm=1.0,
     p_kills=1.0, p_lifetime=0.2, p_deact=0.2, p_weight=0.5, schemes=(("EF", 2), ("RK2", 1), ("RK4", 2)),
-    p_w=0.3, p_numrec=0.3, p_dense=0.2, p_f4=0.0, p_pvars=0.3, p_extra_time=0.0, p_lonlat_out=0.0, period=(1, 4),
+    p_w=0.3, p_numrec=0.3, p_dense=0.2, p_f4=0.0, p_pvars=0.3, p_extra_time=0.0, p_lonlat_out=0.3, period=(1, 4),
     p_stop_extra=0.1,
 )
 
